@@ -34,7 +34,7 @@ COMPONENTS = {
 ASSUMPTIONS = ["the feature set is the grammar above (listed per production in probes grammar.*); loops (cwltool:Loop / v1.3 loop), records, Directory values, secondaryFiles, "
                "InitialWorkDirRequirement and container requirements are not generated",
                "two failing runs are considered equal whatever their messages"]
-TIERS = {"quick": {"runs": 320, "budget_s": 140}, "thorough": {"runs": 20000, "budget_s": 900}}
+TIERS = {"quick": {"runs": 160, "budget_s": 75, "chunk": 2}, "thorough": {"runs": 20000, "budget_s": 900, "chunk": 8}}
 SIM_KW = {"max_steps": 3_000_000, "wall_cap": 120.0, "max_vtime": 1e7}
 
 
